@@ -20,18 +20,21 @@ let () =
       let line = input_line ic in
       match String.split_on_char ' ' (String.trim line) with
       | id :: toks ->
-          let flags = ref 0 and args = ref [] and argv = ref [] and pinned = ref false in
+          let flags = ref 0 and args = ref [] and argv = ref [] and pinned = ref false and tolerated = ref [] and unsupported = ref false in
           List.iter (fun t ->
               if starts "H:f=" t then flags := int_of_string (after "H:f=" t)
               else if starts "arg:" t then begin
                 match String.split_on_char ':' t with
                 | _ :: spec :: slot :: rest ->
+                    let opts = String.split_on_char '/' (String.concat ":" rest) in
                     let init = List.fold_left (fun acc o -> if starts "init=" o then after "init=" o = "1" else acc)
-                        false (String.split_on_char '/' (String.concat ":" rest)) in
+                        false opts in
+                    if List.mem "try" opts then tolerated := slot :: !tolerated;
                     args := (spec, slot, init) :: !args
                 | _ -> () end
               else if starts "argv:" t then
                 argv := List.map unhex (List.filter (fun x -> x <> "-") (String.split_on_char ',' (after "argv:" t)))
+              else if starts "S:" t then unsupported := true      (* sub-group arguments: outside the model *)
               else if t = "model:pinned" then pinned := true) toks;
           let args = List.rev !args in
           let abbr = !flags land 0x80 = 0 in
@@ -39,12 +42,16 @@ let () =
           let rec build t = function
             | [] -> Some t
             | (spec, slot, _) :: r ->
+                (* a refused definition marked "try" leaves the table as it was *)
                 (match parse_key (str_of_string spec) with
-                 | Ok k -> (match add_argument t k slot with Ok t' -> build t' r | _ -> None)
-                 | _ -> None) in
+                 | Ok k -> (match add_argument t k slot with
+                     | Ok t' -> build t' r
+                     | _ -> if List.mem slot !tolerated then build t r else None)
+                 | _ -> if List.mem slot !tolerated then build t r else None) in
           let slots = List.sort compare (List.map (fun (_, s, i) -> (s, i)) args) in
           let show hit = String.concat " " (List.map (fun (s, i) ->
               Printf.sprintf "%s=%d" s (if Some s = hit then (if i then 0 else 1) else (if i then 1 else 0))) slots) in
+          if !unsupported then Printf.printf "%s unsupported ##\n" id else
           (match build [] args with
            | None -> Printf.printf "%s setup ##\n" id
            | Some t ->
